@@ -85,6 +85,7 @@ type Machine struct {
 	errorsNew *ssa.Function
 	curFrame  *Frame
 	side      map[*Value]Value
+	shapeIDs  map[string]int
 	Tier      int
 	fmtDepth  int
 }
@@ -121,6 +122,7 @@ func NewMachine(prog *ssa.Program, cfg Config) *Machine {
 		natives: map[string]NativeFunc{},
 		repls:   map[string]string{},
 		nativeTypes: map[string]*types.Named{},
+		shapeIDs: map[string]int{},
 	}
 	if rt := prog.ImportedPackage("runtime"); rt != nil {
 		if t := rt.Type("errorString"); t != nil {
